@@ -288,6 +288,12 @@ impl Generator
 	{
 		if let Some(&constant) = self.constants.get(&name.resolution_id)
 		{
+			// A constant expression such as `4 / 0` folds to a poison value,
+			// which is a constant but not an integer.
+			if unsafe { LLVMIsAConstantInt(constant) }.is_null()
+			{
+				return None;
+			}
 			let v: u64 = unsafe { LLVMConstIntGetZExtValue(constant) };
 			v.try_into().ok()
 		}
